@@ -5,6 +5,14 @@ BUFMODES_QUICK = [0, 1, 2, 4]          # nil, fresh, used len 0, used len 2
 BUFMODES_THOROUGH = [0, 1, 2, 3, 4, 14]  # ... used len 1, len 12 (> any depth reachable at these N)
 
 
+def _depth_jobs(c, harness, ND, modes, D=3):
+    """the same harness with the nesting limit scaled from 10,000 to D in the code and in the
+    reference, so that nesting up to and beyond the limit is inside the bound"""
+    for n in range(D, ND + 1):
+        for m in modes:
+            c.add(Job(harness, [('bytes', 'd', n), ('int', m)], weight=3 ** n, opts={'scale_depth': D}))
+
+
 def _machine_jobs(c, harness, N, modes, sym='d', split_from=8):
     for n in range(0, N + 1):
         for m in modes:
@@ -24,7 +32,10 @@ def check_C01(tier, nproc=None):
     N = 7 if tier == 'quick' else 10
     modes = BUFMODES_QUICK if tier == 'quick' else BUFMODES_THOROUGH
     _machine_jobs(c, 'vH_C01', N, modes)
-    c.bounds = {'N': N, 'buffer_modes': modes, 'meaning': 'every byte string of length <= N; Buffer nil / fresh / used with arbitrary contents'}
+    ND = 8 if tier == "quick" else 10
+    _depth_jobs(c, 'vH_C01', ND, [0, 4, 14])
+    c.bounds = {'N': N, 'buffer_modes': modes, 'meaning': 'every byte string of length <= N; Buffer nil / fresh / used with arbitrary contents',
+                'depth_limit': 'all strings <= %d with the limit scaled to 3 (nesting up to and beyond the limit), Buffer nil / used len 2 / used len 12' % ND}
     c.must_reach = ['C01.compared']
     c.assumptions = ['reference vRefValid (harness/zz_verif_ref.go) is RFC 8259; validated natively against encoding/json',
                      'go/ssa lowering and the gosym encoder model the compiled code (validated by native replay of samples)',
@@ -40,7 +51,9 @@ def check_C02(tier, nproc=None):
     N = 7 if tier == 'quick' else 10
     modes = BUFMODES_QUICK if tier == 'quick' else BUFMODES_THOROUGH
     _machine_jobs(c, 'vH_C02', N, modes)
-    c.bounds = {'N': N, 'buffer_modes': modes}
+    ND = 8 if tier == "quick" else 10
+    _depth_jobs(c, 'vH_C02', ND, [0, 4, 14])
+    c.bounds = {'N': N, 'buffer_modes': modes, 'depth_limit': 'all strings <= %d with the limit scaled to 3' % ND}
     c.must_reach = ['C02.compared']
     c.assumptions = ['reference vRefSkip is the one-pass RFC 8259 prefix reading; validated natively against encoding/json Decoder offsets',
                      'encoder validated by native replay of samples', 'amd64']
@@ -64,6 +77,7 @@ def check_C11(tier, nproc=None):
     _machine_jobs(c, 'vH_C11', N, modes)
     for t in STRING_TEMPLATES:
         c.add(Job('vH_C11', [('tmpl', 'd', t), ('int', 0)], weight=3 ** 8))
+    _depth_jobs(c, 'vH_C11', 8 if tier == 'quick' else 10, [0, 14])
     c.bounds = {'N': N, 'buffer_modes_for_fast': modes, 'templates': [''.join(('?' * x) if isinstance(x, int) else x.decode() for x in t) for t in STRING_TEMPLATES]}
     c.must_reach = ['C11.wellformed']
     c.assumptions = ['encoder validated by native replay of samples', 'amd64']
@@ -303,6 +317,40 @@ def check_C03(tier, nproc=None):
              'sync.Pool.Get returns the most recently Put reader (a fresh reader is used in this check, so the pool starts empty)',
              'map iteration in the comparison uses insertion order (the comparison result does not depend on order)'])
     c.outside = ['documents longer than the bounds', 'numeric leaf values (C04)', 'the 10,000 depth limit']
+    c.run_jobs(nproc)
+    c.confirm()
+    return c.finish()
+
+
+def check_C15(tier, nproc=None):
+    c = Check('C15', tier)
+    o = {'float_contract': True}
+    # first documents: a mix of successes and failures that leave state behind (hints, pooled children, depth)
+    A = [[b'{}'], [b'[]'], [b'{"', 1, b'":', 1, b'}'], [b'[', 1, b',[', 1, b']]'], [b'[1, 2'], [b'{"a": tru}'], [b'[[[', 1, b']]'],
+         [b'[{"a":1,"b":2,"c":3},[1,2,3]]'], [b'"', 1, b'\\n"']]
+    B = [[b'{}'], [b'{"', 1, b'":', 1, b'}'], [b'[', 2, b']'], [b'[[', 1, b'],{"', 1, b'":[]}]'], [b'"', 2, b'"'], [3], [b'[[[[1]]]]'], [b'[[[1]]]']]
+    if tier == 'quick':
+        pairs = [(a, b) for a in A for b in B[:6]]
+    else:
+        pairs = [(a, b) for a in A for b in B]
+    for a, b in pairs:
+        for w1, w2 in ([(0, 0), (1, 1), (2, 0)] if tier == 'quick' else [(0, 0), (1, 1), (2, 2), (1, 0), (2, 0), (0, 1), (0, 2)]):
+            c.add(Job('vH_C15', [('tmpl', 'a', a), ('tmpl', 'b', b), ('int', w1), ('int', w2)], weight=100, opts=o))
+    # depth accounting across calls, with the limit scaled to 3
+    od = {'float_contract': True, 'scale_depth': 3}
+    for a in ([b'[1, 2'], [b'{"a": tru}'], [b'[[[[1]]]]'], [b'[[1]]'], [b'[[[[', 1]):
+        for b in ([b'[[[1]]]'], [b'[[[[1]]]]'], [b'{"a":{"b":{"c":1}}}'], [b'[', 1, b'[[1]]', 1]):
+            for w1, w2 in [(0, 0), (2, 0), (1, 0), (2, 2), (0, 2)]:
+                c.add(Job('vH_C15', [('tmpl', 'a', a), ('tmpl', 'b', b), ('int', w1), ('int', w2)], weight=100, opts=od))
+    for a in ([b'[[', 1, b'],{}]'], [b'[1, 2']):
+        for b in ([b'{"a": tru}'], [b'[{"', 1, b'":1}]']):
+            for cc in ([b'[', 1, b',{"', 1, b'":2}]'], [b'{}']):
+                c.add(Job('vH_C15_three', [('tmpl', 'a', a), ('tmpl', 'b', b), ('tmpl', 'c', cc), ('int', 0), ('int', 0), ('int', 0)], weight=200, opts=o))
+    c.bounds = {'histories': 'two calls (and selected three-call sequences) on one reader; documents from %d x %d templates with symbolic bytes; all ReadValue/ReadObject/ReadArray combinations listed' % (len(A), len(B)),
+                'first_docs': [_tmplstr(t) for t in A], 'second_docs': [_tmplstr(t) for t in B]}
+    c.must_reach = ['C15.second-call', 'C15.second-ok', 'C15.first-ok', 'C15.third-call']
+    _std(c, ['number contract as in C03', 'sync.Pool.Get returns the most recently Put reader (the functional alternative "returns nil" equals the fresh-reader run)'])
+    c.outside = ['histories longer than three calls', 'documents outside the templates', 'GC-driven pool eviction timing']
     c.run_jobs(nproc)
     c.confirm()
     return c.finish()
